@@ -54,7 +54,10 @@ class Program(object):
         library_commands = [
             info
             for info in Command.get_commands()
-            if any(info.module.startswith(lib) for lib in libraries)
+            if any(
+                info.module == lib or info.module.startswith(lib + ".")
+                for lib in libraries
+            )
         ]
         duplicates = [
             name
